@@ -179,3 +179,56 @@ def extract_subgraph(mb, i):
 def canon_sg(mb, i):
     c = pl.canon(mb)
     return c["subgraphs"][i]
+
+
+def explore(ctx, drv, n, per_case, gen=gen_case, graph_corr=True, reserve_s=25, mat_corr=False, pipe_corr=False):
+    """generate n cases within the time budget; per_case(case, res) runs the property oracle"""
+    from . import fam_mat as fmat
+    rng = ctx.rng
+    for i in range(n):
+        if ctx.left() < reserve_s:
+            break
+        case = gen(rng, i)
+        res = run_case(ctx, drv, case, graph_corr=graph_corr)
+        count_tags(ctx, case, res)
+        ctx.case({"ops": [sg["ops"] for sg in case.info["subgraphs"]], "recipe": case.desc}, res["status"] != "empty")
+        if (mat_corr or pipe_corr) and res.get("q") is not None and res["status"] != "empty" and res.get("stage") not in ("recipe", "calibrate"):
+            if mat_corr:
+                fmat.cmp_materialize(ctx, drv, case.mb, res["q"], res.get("cr"))
+            if pipe_corr:
+                out = ("ok", res["out"]) if res["status"] == "ok" else ("raise", res.get("exc"))
+                fmat.cmp_pipeline(ctx, drv, case.mb, res["q"], res.get("cr"), out)
+        per_case(case, res)
+
+
+def failer(ctx, case, prefix=""):
+    def fail(msg, key):
+        ctx.fail(prefix + msg, case.replay(), key)
+    return fail
+
+
+def gen_tied_case(rng, i):
+    """tied-constant models x recipes assigning equal / different / no quantization to the sharers"""
+    mb, info = gm.gen_tied(rng)
+    data = gm.random_inputs(mb, rng, n=1)
+    names = [n for sc in pl.scopes_of(mb) for n in sc.split(";") if n]
+    r = rng.random()
+    if r < 0.3:
+        name, rec = rng.choice(pl.shipped_recipes())
+        return Case(mb, info, recipe=rec, data=data, desc=name)
+    cmds = []
+    if r < 0.5:
+        cmds.append({"k": "add", "regex": ".*", "operation": "FULLY_CONNECTED", "cfg": rng.choice(list(pl.UNIFORM.values())), "alg": "min_max_uniform_quantize"})
+    else:
+        for n in names:
+            rr = rng.random()
+            if rr < 0.3:
+                continue
+            if rr < 0.4:
+                cmds.append({"k": "add", "regex": re.escape(n), "operation": "*", "cfg": None, "alg": "no_quantize"})
+            elif rr < 0.5:
+                cmds.append({"k": "add", "regex": re.escape(n), "operation": "FULLY_CONNECTED", "cfg": pl.FP16, "alg": "float_casting"})
+            else:
+                cmds.append({"k": "add", "regex": re.escape(n), "operation": rng.choice(["*", "FULLY_CONNECTED"]),
+                             "cfg": rng.choice(list(pl.UNIFORM.values())), "alg": "min_max_uniform_quantize"})
+    return Case(mb, info, cmds=cmds, data=data, desc=[(c["regex"], c["operation"], c["alg"]) for c in cmds])
